@@ -119,6 +119,13 @@ pub const TEXTS: &[&str] = &[
     "\u{1}ACTION waves\u{1}",
     "!@#$%^&*()",
     "x",
+    "",
+    "a  b   c",
+    " :",
+    "x:y:z",
+    "tab\there",
+    "ends with colon:",
+    "0123456789abcdefghijklmnopqrstuvwxyzABCDEFGHIJKLMNOPQRSTUVWXYZ0123456789abcdefghijklmnopqrstuvwxyzABCDEFGHIJKLMNOPQRSTUVWXYZ0123456789abcdefghijklmnopqrstuvwxyzABCDEFGHIJKLMNOPQRSTUVWXYZ and so on",
 ];
 
 impl Profile {
